@@ -46,4 +46,9 @@ if __name__ == "__main__":
     rc = main()
     sys.stdout.flush()
     sys.stderr.flush()
+    try:
+        from . import build as _b
+        _b.cleanup_scratch()
+    except Exception:
+        pass
     os._exit(rc if isinstance(rc, int) else 0)
